@@ -119,6 +119,7 @@ func checkKey(c keyCase) error {
 	rdata := ref.DNSKEYRdata(c.Flags, c.Protocol, c.Algorithm, c.Key)
 	pbt.Note(append([]byte(c.Owner+"|"), rdata...), len(c.Key) >= 3,
 		lenClass(len(c.Key)), fmt.Sprintf("keylen-odd=%v", len(c.Key)%2 == 1), fmt.Sprintf("owner-labels=%d", min(len(owner), 3)),
+		fmt.Sprintf("keytag-single-fold-carries-again=%v(keylen<=600:%v)", foldCarries(rdata), len(c.Key) <= 600),
 		fmt.Sprintf("owner-casevariant=%v", c.Owner != c.Owner2), "object-state="+map[bool]string{true: "fresh", false: c.State}[c.State == ""],
 		fmt.Sprintf("owner-has-octet>=0x80(written \\DDD)=%v", highOctet(owner)))
 
@@ -189,6 +190,49 @@ func checkKey(c keyCase) error {
 		}
 	}
 	return nil
+}
+
+// appendixBSum is the accumulator of RFC 4034 Appendix B before the fold.
+func appendixBSum(rdata []byte) uint64 {
+	var ac uint64
+	for i, b := range rdata {
+		if i&1 == 1 {
+			ac += uint64(b)
+		} else {
+			ac += uint64(b) << 8
+		}
+	}
+	return ac
+}
+
+// foldCarries reports whether the one folding step of Appendix B ("ac += (ac >> 16) & 0xFFFF") itself
+// overflows 16 bits: the RFC then simply masks, a ones'-complement style end-around carry would add
+// one more. About n/262144 of the random keys of n octets are like that (1 in 7000 for Ed25519, 1 in
+// 1000 for RSA-2048), so the generator steers a share of its keys there (steerFold).
+func foldCarries(rdata []byte) bool {
+	ac := appendixBSum(rdata)
+	return ac&0xFFFF+ac>>16&0xFFFF > 0xFFFF
+}
+
+// steerFold rewrites one drawn aligned 16-bit word of the key so that the low half of the Appendix B
+// sum comes to lie within (number of carries) of 0xFFFF - the fold then carries again. The key tag is
+// a function of the RDATA octets only, so the key octets need not be anybody's public key.
+func steerFold(t *rapid.T, c *keyCase) {
+	if len(c.Key) < 2 {
+		return
+	}
+	i := 2 * rapid.IntRange(0, (len(c.Key)-2)/2).Draw(t, "foldword") // RDATA offset 4+i is even
+	c.Key[i], c.Key[i+1] = 0, 0
+	ac := appendixBSum(ref.DNSKEYRdata(c.Flags, c.Protocol, c.Algorithm, c.Key))
+	a, b := int(ac>>16), int(ac&0xFFFF)
+	if a < 1 {
+		return
+	}
+	w := 0xFFFF - b - rapid.IntRange(0, a-1).Draw(t, "foldslack")
+	if w < 0 {
+		return
+	}
+	c.Key[i], c.Key[i+1] = byte(w>>8), byte(w)
 }
 
 func genKeyLen(t *rapid.T) int {
@@ -298,12 +342,15 @@ func genKey(t *rapid.T) keyCase {
 			c.PrevKey[i] = byte(i*31 + pn)
 		}
 	}
+	if fill == 2 {
+		steerFold(t, &c)
+	}
 	c.OtherType = rapid.OneOf(rapid.SampledFrom([]uint8{0, 3, 5, 6, 255}), rapid.Uint8()).Draw(t, "dt")
 	return c
 }
 
 func init() {
-	pbt.Register(pbt.Sub[keyCase]{Name: "keytag-ds", Weight: 10, Gen: genKey, Check: checkKey})
+	pbt.Register(pbt.Sub[keyCase]{Name: "keytag-ds", Weight: 8, Gen: genKey, Check: checkKey})
 	// DESIGN §4 #12: KeyTag()==0 / ToDS()==nil once the DNSKEY RDATA exceeds the 4096-octet scratch
 	pbt.Probe(findKeytagLong, func() error {
 		key := bytes.Repeat([]byte{0x5a}, maxScratchKey+1)
